@@ -462,7 +462,17 @@ fn start_server(profile: &Path, home: &Path) -> Result<Server, String> {
 }
 
 fn http_post(host: &str, path: &str, body: &str) -> Result<String, String> {
-    let mut s = std::net::TcpStream::connect(host).map_err(|_| "err:connect".to_string())?;
+    let mut conn = None;
+    for attempt in 0..5 {
+        match std::net::TcpStream::connect(host) {
+            Ok(c) => {
+                conn = Some(c);
+                break;
+            }
+            Err(_) => std::thread::sleep(std::time::Duration::from_millis(100 << attempt)),
+        }
+    }
+    let mut s = conn.ok_or("err:connect".to_string())?;
     s.set_read_timeout(Some(std::time::Duration::from_secs(60))).ok();
     let req = format!(
         "POST {path} HTTP/1.1\r\nHost: {host}\r\nContent-Type: application/json\r\nContent-Length: {}\r\nConnection: close\r\n\r\n{body}",
@@ -587,6 +597,11 @@ fn exec_e2e(ops: &[String], stats: &mut Stats) -> Vec<String> {
     let Some(e) = parse_e2e(ops) else {
         return vec!["bad-op".to_string()];
     };
+    // a shrunk case may have lost the `file` / `map` line a later line refers to
+    let n = e.files.len();
+    if e.maps.iter().any(|m| m.0 >= n) || e.hits.iter().any(|h| h.0 >= n) || e.files.is_empty() {
+        return vec!["bad-op".to_string()];
+    }
     let dir = case_dir(ops);
     let dir_s = dir.to_string_lossy().to_string();
     let home = dir.join("home");
@@ -611,8 +626,11 @@ fn exec_e2e(ops: &[String], stats: &mut Stats) -> Vec<String> {
         }
         if f.present {
             let p = dir.join(&f.name);
-            std::fs::create_dir_all(p.parent().unwrap()).unwrap();
-            std::fs::write(&p, &bytes).unwrap();
+            let ok = p.parent().map(|d| std::fs::create_dir_all(d).is_ok()).unwrap_or(false) && std::fs::write(&p, &bytes).is_ok();
+            if !ok {
+                let _ = std::fs::remove_dir_all(&dir);
+                return vec!["bad-op".to_string()];
+            }
         }
     }
     // the recording: one process, one MMAP2 per `map`, one sample per `hit` (leaf frame only, so that the
@@ -634,7 +652,7 @@ fn exec_e2e(ops: &[String], stats: &mut Stats) -> Vec<String> {
         recs.push(Rec::Sample { pid: 100, tid: 100, t, kernel: false, period: 1_000_000, ip: avma, chain: vec![CTX_USER, avma] });
         stats.bump("e2e_hits");
     }
-    let h = History { reuse: false, fold: false, ref_time: 0, recs };
+    let h = History { recs, ..Default::default() };
     let data = dir.join("perf.data");
     write_perf_data(&h, &data, &mut Rng::new(fnv1a(ops)));
     let mut out = Vec::new();
@@ -669,9 +687,10 @@ fn exec_e2e(ops: &[String], stats: &mut Stats) -> Vec<String> {
     };
     let pj = read_profile("json", &profiles[0].1);
     let pg = read_profile("gz", &profiles[1].1);
+    let pj_ok = pj.is_some();
     let (Some(pj), Some(pg)) = (pj, pg) else {
         let _ = std::fs::remove_dir_all(&dir);
-        return vec!["import err:badjson".to_string()];
+        return vec![format!("import {} err:unreadable", if pj_ok { "gz" } else { "json" })];
     };
     let libs: Vec<Value> = pj["libs"].as_array().cloned().unwrap_or_default();
     let mut sers: Vec<String> = libs
@@ -814,7 +833,7 @@ fn gen_letter_bytes(rng: &mut Rng, n: usize) -> Vec<u8> {
 
 /// build ids around the dispatch of `CodeId::from_str`
 fn gen_build_id(rng: &mut Rng) -> Vec<u8> {
-    match rng.below(12) {
+    match rng.below(24) {
         0 => gen_bytes(rng, 20),
         1 => gen_bytes(rng, 16),
         2 => gen_decimal_bytes(rng, 16),
@@ -1208,8 +1227,10 @@ impl E2eBuilder {
 
 fn e2e_name(rng: &mut Rng, k: usize) -> String {
     let n = if rng.chance(1, 2) { ODD_NAMES[rng.below(ODD_NAMES.len() as u64) as usize].to_string() } else { gen_name(rng) };
-    // distinct paths per case: a numbered directory
-    format!("d{k}/{}", n.replace('/', "_").replace('\u{1}', "_ctl_"))
+    // distinct paths per case: a numbered directory; "." and ".." are not file names
+    let n = n.replace('/', "_").replace('\u{1}', "_ctl_");
+    let n = if n == "." || n == ".." || n.is_empty() { format!("dot{n}") } else { n };
+    format!("d{k}/{n}")
 }
 
 fn gen_e2e(rng: &mut Rng) -> Vec<String> {
@@ -1228,6 +1249,19 @@ fn gen_e2e(rng: &mut Rng) -> Vec<String> {
             }
             2 => {
                 b.add_gen(rng, &name, true, None, 3);
+            }
+            3 if rng.chance(1, 2) => {
+                // a file and a byte-identical copy: under the same file name in another directory (equal keys) or
+                // under another name (equal build id, different key)
+                let bid = gen_bytes(rng, 20);
+                let (spec, expect) = gen_spec(rng, Some(bid));
+                let i = b.n;
+                b.n += 1;
+                b.ops.push(gen_file_line(i, &name, true, &spec));
+                b.map_and_hit_gen(rng, i, &spec, &expect, true, 2);
+                let base = name.rsplit('/').next().unwrap().to_string();
+                let copy_name = if rng.chance(1, 2) { format!("c{k}/{base}") } else { format!("c{k}/copy-of-{k}") };
+                b.add_copy(rng, &copy_name, i, &spec, &expect, 2);
             }
             _ => {
                 let bid = gen_build_id(rng);
